@@ -175,8 +175,9 @@ def oracle_valid(case):
 
 
 # ------------------------------------------------------------------------------------------ XML correspondence
-def xml_corr_terms(case):
-    """Coq terms CaseA / CaseB for one generated scenario (None if the implementation failed to write/read)"""
+def xml_corr_terms(case, doc_order=False):
+    """Coq terms CaseA / CaseB for one generated scenario (None if the implementation failed to write/read).
+    doc_order: keep the document order of children inside xs:sequence elements (relation A of C03)"""
     from props import xmlfmt
     sc, pps, meta = build(case)
     d = tempfile.mkdtemp(prefix="verif-codec-", dir="/var/tmp")
@@ -188,7 +189,7 @@ def xml_corr_terms(case):
         except Exception:  # noqa
             return None, None
         root = etree.parse(path).getroot()
-        t_w = xmlfmt.parse(xmlfmt.ROOT, root, side="W")
+        t_w = xmlfmt.parse(xmlfmt.ROOT, root, side="W", doc_order=doc_order)
         a = f"CaseA {case.get('prec', 4)} {xmlfmt.coq_val(v_in)} {xmlfmt.coq_tree(t_w)}"
         try:
             sc2, pps2 = read(case, path)
@@ -211,13 +212,15 @@ XML_IMPORTS = ("From Coq Require Import QArith ZArith String List Bool NArith.\n
                "Open Scope list_scope.\n")
 
 
-def xml_corr(ctx, cases, n_max):
+def xml_corr(ctx, cases, n_max, doc_order=False):
     """model (generic codec on the generated tables) vs implementation on up to n_max of the cases"""
     use, terms = [], []
     for c in cases[:n_max]:
-        a, b = xml_corr_terms(c)
-        for rel, t in (("A: written tree = write W.xml_root (original)", a),
-                       ("B: read-back value = read R.xml_root (written tree)", b)):
+        a, b = xml_corr_terms(c, doc_order)
+        if doc_order:
+            b = None
+        for rel, t in (("A: written tree = write W.xml_root (original)" + (", document order kept" if doc_order else ""),
+                        a), ("B: read-back value = read R.xml_root (written tree)", b)):
             if t is not None:
                 use.append((rel, c))
                 terms.append(t)
